@@ -1,4 +1,5 @@
 import Comdex.Lemmas.Locker
+import Comdex.Lemmas.Accrual
 /-!
 # C13 — Savings and fee books are backed: locker balances and collector net fees
 
@@ -34,7 +35,7 @@ namespace Comdex.C13
 open Comdex.Locker
 
 /-- empty books over an arbitrary configuration -/
-def init (assets apps : List Nat) (collk : List (Nat × Nat)) : State :=
+def init (assets apps : List Nat) (collk : Store (Nat × Nat) CL) : State :=
   { assets := assets, apps := apps, collk := collk }
 
 def ExtOk (ops : List Op) : Prop := ∀ op ∈ ops, op.extOk
@@ -52,7 +53,7 @@ theorem dmgTotal_zero {ops : List Op} (h : NoV2Close ops) (a : Nat) : dmgTotal o
     simp only [dmgTotal]
     rw [Op.dmg_zero (h op (by simp)), ih (fun o ho => h o (by simp [ho]))]; rfl
 
-theorem inv_init (assets apps : List Nat) (collk : List (Nat × Nat)) :
+theorem inv_init (assets apps : List Nat) (collk : Store (Nat × Nat) CL) :
     LInv (init assets apps collk) ∧ CInvD (fun _ => 0) (init assets apps collk) := by
   refine ⟨⟨?_, ?_, ?_, ?_, ?_, ?_⟩, ⟨?_, ?_⟩⟩ <;> simp [init, dep, lockSum, depAsset, feeAsset, Store.sumBy, Store.get, bal, Bank.bal, IdsInvS]
 
@@ -77,7 +78,7 @@ theorem inv_runSkip (ops : List Op) : ∀ (s : State) (D : Nat → Int), LInv s 
       exact ⟨a, b.mono (fun x => by simp only [dmgTotal]; omega)⟩
 
 /-- every reachable state satisfies the locker invariants, and the collector invariants up to the bounded shortfall -/
-theorem reachable_inv (assets apps : List Nat) (collk : List (Nat × Nat)) (ops : List Op) (h : ExtOk ops) :
+theorem reachable_inv (assets apps : List Nat) (collk : Store (Nat × Nat) CL) (ops : List Op) (h : ExtOk ops) :
     LInv (runSkip (init assets apps collk) ops) ∧ CInvD (dmgTotal ops) (runSkip (init assets apps collk) ops) := by
   obtain ⟨hL, hC⟩ := inv_init assets apps collk
   obtain ⟨a, b⟩ := inv_runSkip ops _ _ hL hC h
@@ -86,19 +87,19 @@ theorem reachable_inv (assets apps : List Nat) (collk : List (Nat × Nat)) (ops 
 /-! ## locker books -/
 
 /-- **Deposited total = Σ net balances**, for every (app, asset), after every history. -/
-theorem deposited_eq_sum_netbalance (assets apps : List Nat) (collk : List (Nat × Nat)) (ops : List Op) (h : ExtOk ops)
+theorem deposited_eq_sum_netbalance (assets apps : List Nat) (collk : Store (Nat × Nat) CL) (ops : List Op) (h : ExtOk ops)
     (app asset : Nat) :
     dep (runSkip (init assets apps collk) ops) (app, asset) = lockSum (app, asset) (runSkip (init assets apps collk) ops).lockers :=
   (reachable_inv assets apps collk ops h).1.depEq (app, asset)
 
 /-- **Locker custody**: per asset the custody account holds at least the deposited totals summed over all apps. -/
-theorem locker_custody_ge_deposited (assets apps : List Nat) (collk : List (Nat × Nat)) (ops : List Op) (h : ExtOk ops)
+theorem locker_custody_ge_deposited (assets apps : List Nat) (collk : Store (Nat × Nat) CL) (ops : List Op) (h : ExtOk ops)
     (asset : Nat) :
     depAsset asset (runSkip (init assets apps collk) ops).lookup ≤ bal (runSkip (init assets apps collk) ops) .locker asset :=
   (reachable_inv assets apps collk ops h).1.custody asset
 
 /-- … and therefore at least each single (app, asset) total. -/
-theorem locker_custody_ge_each_deposited (assets apps : List Nat) (collk : List (Nat × Nat)) (ops : List Op) (h : ExtOk ops)
+theorem locker_custody_ge_each_deposited (assets apps : List Nat) (collk : Store (Nat × Nat) CL) (ops : List Op) (h : ExtOk ops)
     (app asset : Nat) :
     dep (runSkip (init assets apps collk) ops) (app, asset) ≤ bal (runSkip (init assets apps collk) ops) .locker asset := by
   obtain ⟨hL, _⟩ := reachable_inv assets apps collk ops h
@@ -116,7 +117,7 @@ theorem locker_custody_ge_each_deposited (assets apps : List Nat) (collk : List 
 
 /-- **A withdrawal pays exactly the requested amount**: in every reachable state, a successful `MsgWithdrawAsset` raises the
 owner's balance by exactly `amt`, and the locker keeps `net + reward − amt`. -/
-theorem withdraw_pays_exactly (assets apps : List Nat) (collk : List (Nat × Nat)) (ops : List Op) (h : ExtOk ops)
+theorem withdraw_pays_exactly (assets apps : List Nat) (collk : Store (Nat × Nat) CL) (ops : List Op) (h : ExtOk ops)
     (u app asset id : Nat) (amt : Int) (rw : Rw) (hrw : rw.ok) (s' : State)
     (hstep : step (runSkip (init assets apps collk) ops) (.withdraw u app asset id amt rw) = some s') :
     bal s' (.user u) asset = bal (runSkip (init assets apps collk) ops) (.user u) asset + amt ∧
@@ -126,7 +127,7 @@ theorem withdraw_pays_exactly (assets apps : List Nat) (collk : List (Nat × Nat
   exact withdraw_pays hL hC hrw hstep
 
 /-- **A close pays exactly the full net balance** (the stored net balance plus the reward credited by the same message). -/
-theorem close_pays_exactly (assets apps : List Nat) (collk : List (Nat × Nat)) (ops : List Op) (h : ExtOk ops)
+theorem close_pays_exactly (assets apps : List Nat) (collk : Store (Nat × Nat) CL) (ops : List Op) (h : ExtOk ops)
     (u app asset id : Nat) (rw : Rw) (hrw : rw.ok) (s' : State)
     (hstep : step (runSkip (init assets apps collk) ops) (.close u app asset id rw) = some s') :
     ∃ l, Store.get (runSkip (init assets apps collk) ops).lockers id = some l ∧ l.owner = u ∧
@@ -137,13 +138,13 @@ theorem close_pays_exactly (assets apps : List Nat) (collk : List (Nat × Nat)) 
 /-! ## collector books -/
 
 /-- **Recorded net fees never go negative** — every history, the defective closes included. -/
-theorem netfees_nonneg (assets apps : List Nat) (collk : List (Nat × Nat)) (ops : List Op) (h : ExtOk ops) :
+theorem netfees_nonneg (assets apps : List Nat) (collk : Store (Nat × Nat) CL) (ops : List Op) (h : ExtOk ops) :
     ∀ p ∈ (runSkip (init assets apps collk) ops).fees, 0 ≤ p.2 :=
   (reachable_inv assets apps collk ops h).2.nonneg
 
 /-- What is true of the collector custody after EVERY history: the shortfall of asset `a` is at most the damage done by the
 second-generation closes (2·lot per surplus close, recorded − received per debt close). -/
-theorem collector_shortfall_bounded (assets apps : List Nat) (collk : List (Nat × Nat)) (ops : List Op) (h : ExtOk ops)
+theorem collector_shortfall_bounded (assets apps : List Nat) (collk : Store (Nat × Nat) CL) (ops : List Op) (h : ExtOk ops)
     (asset : Nat) :
     feeAsset asset (runSkip (init assets apps collk) ops).fees
       ≤ bal (runSkip (init assets apps collk) ops) .collector asset + dmgTotal ops asset :=
@@ -151,7 +152,7 @@ theorem collector_shortfall_bounded (assets apps : List Nat) (collk : List (Nat 
 
 /-- **Collector custody ≥ Σ over apps of recorded net fees**, per asset — for every history that contains no second-generation
 surplus / debt auction close. (The unrestricted statement is false: see the two counterexamples.) -/
-theorem collector_custody_ge_sum_netfees_partial (assets apps : List Nat) (collk : List (Nat × Nat)) (ops : List Op)
+theorem collector_custody_ge_sum_netfees_partial (assets apps : List Nat) (collk : Store (Nat × Nat) CL) (ops : List Op)
     (h : ExtOk ops) (hv2 : NoV2Close ops) (asset : Nat) :
     feeAsset asset (runSkip (init assets apps collk) ops).fees ≤ bal (runSkip (init assets apps collk) ops) .collector asset := by
   have := collector_shortfall_bounded assets apps collk ops h asset
@@ -169,10 +170,10 @@ def witnessDebt : List Op := [.feeVault 1 2 20, .v2DebtClose 1 2 15 2]
 
 theorem collector_custody_ge_sum_netfees_counterexample :
     ExtOk witnessSurplus ∧
-    feeAsset 2 (runSkip (init [1, 2] [1] [(1, 2)]) witnessSurplus).fees = 20 ∧
-    bal (runSkip (init [1, 2] [1] [(1, 2)]) witnessSurplus) .collector 2 = 16 ∧
-    ¬ (feeAsset 2 (runSkip (init [1, 2] [1] [(1, 2)]) witnessSurplus).fees
-        ≤ bal (runSkip (init [1, 2] [1] [(1, 2)]) witnessSurplus) .collector 2) := by
+    feeAsset 2 (runSkip (init [1, 2] [1] [((1, 2), {})]) witnessSurplus).fees = 20 ∧
+    bal (runSkip (init [1, 2] [1] [((1, 2), {})]) witnessSurplus) .collector 2 = 16 ∧
+    ¬ (feeAsset 2 (runSkip (init [1, 2] [1] [((1, 2), {})]) witnessSurplus).fees
+        ≤ bal (runSkip (init [1, 2] [1] [((1, 2), {})]) witnessSurplus) .collector 2) := by
   refine ⟨?_, by decide, by decide, by decide⟩
   intro op hop
   simp [witnessSurplus] at hop
@@ -180,8 +181,8 @@ theorem collector_custody_ge_sum_netfees_counterexample :
 
 theorem collector_custody_ge_sum_netfees_counterexample_debt :
     ExtOk witnessDebt ∧
-    feeAsset 2 (runSkip (init [1, 2] [1] [(1, 2)]) witnessDebt).fees = 35 ∧
-    bal (runSkip (init [1, 2] [1] [(1, 2)]) witnessDebt) .collector 2 = 22 := by
+    feeAsset 2 (runSkip (init [1, 2] [1] [((1, 2), {})]) witnessDebt).fees = 35 ∧
+    bal (runSkip (init [1, 2] [1] [((1, 2), {})]) witnessDebt) .collector 2 = 22 := by
   refine ⟨?_, by decide, by decide⟩
   intro op hop
   simp [witnessDebt] at hop
@@ -191,7 +192,7 @@ theorem collector_custody_ge_sum_netfees_counterexample_debt :
 other than those two closes and a bare `DecreaseNetFeeCollectedData` changes, for every asset, the sum of the recorded net
 fees by exactly the change of the collector's custody balance — fees, interest, penalties, returned lots and debt-auction
 proceeds in; locker savings, auction lots, debt cover and surplus funds out. -/
-theorem netfees_delta_exact_partial (assets apps : List Nat) (collk : List (Nat × Nat)) (ops : List Op)
+theorem netfees_delta_exact_partial (assets apps : List Nat) (collk : Store (Nat × Nat) CL) (ops : List Op)
     (h : ExtOk ops) (hv2 : NoV2Close ops) (op : Op) (hop : op.extOk) (hopv2 : op.isV2Close = false)
     (hraw : op.isRawDecrease = false) (s' : State) (hstep : step (runSkip (init assets apps collk) ops) op = some s')
     (asset : Nat) :
@@ -217,8 +218,8 @@ theorem decrease_exact (s s' : State) (app asset : Nat) (x : Int) (h : step s (.
 theorem netfees_delta_exact_counterexample :
     ∃ s s', step s (.v2SurplusClose 1 2 0 2) = some s' ∧
       feeAsset 2 s'.fees - feeAsset 2 s.fees = 2 ∧ bal s' .collector 2 - bal s .collector 2 = -2 :=
-  ⟨runSkip (init [1, 2] [1] [(1, 2)]) [.feeVault 1 2 20, .getAmount 1 2 2],
-   runSkip (init [1, 2] [1] [(1, 2)]) witnessSurplus, by decide, by decide, by decide⟩
+  ⟨runSkip (init [1, 2] [1] [((1, 2), {})]) [.feeVault 1 2 20, .getAmount 1 2 2],
+   runSkip (init [1, 2] [1] [((1, 2), {})]) witnessSurplus, by decide, by decide, by decide⟩
 
 /-- After the small repair proposed in notes/C13.md the two closes are exact like every other operation: the invariants are
 preserved without any shortfall (`D` unchanged), so `collector_custody_ge_sum_netfees_partial` then covers them as well. -/
@@ -231,8 +232,205 @@ theorem repaired_debt_close_exact {D : Nat → Int} (s s' : State) (app asset : 
   repairedDebtClose_inv hL hC h
 
 /-- on the surplus witness the repaired close leaves record and custody equal (18 = 18) -/
-example : ((stepRepaired (runSkip (init [1, 2] [1] [(1, 2)]) [.feeVault 1 2 20, .getAmount 1 2 2]) (.v2SurplusClose 1 2 0 2)).map
+example : ((stepRepaired (runSkip (init [1, 2] [1] [((1, 2), {})]) [.feeVault 1 2 20, .getAmount 1 2 2]) (.v2SurplusClose 1 2 0 2)).map
     fun s => (feeAsset 2 s.fees, bal s .collector 2, bal s (.user 0) 2)) = some (18, 18, 2) := by decide
+
+/-! ## the savings reward, computed inside the model
+
+`accrue` is the model of `CalculateLockerRewards` up to the ledger code: elapsed time from the locker's (or, for block height 0, the
+collector entry's) time stamp, `CalculationOfRewards` = exact IEEE-754 arithmetic around one `math.Pow` call (`Comdex.Accrual`,
+the value `pw` of that call is the only input), tracker accumulation, whole units handed on. Timed histories
+(`runSkipT`, ops `OpT`) need NO assumption about the reward: admissibility is a theorem (`reward_paid_pos`). -/
+
+/-- **A paid reward is at least one whole unit** (in particular ≥ 0), whatever `math.Pow` returned. -/
+theorem reward_paid_pos (s : State) (ctx : Ctx) (app asset id : Nat) (pw : Option Int) (ρ : Int)
+    (h : (accrue s ctx app asset id pw).1 = .pay ρ) : 1 ≤ ρ :=
+  accrue_pay_pos s ctx app asset id pw ρ h
+
+/-- **The accrued amount is ≥ 0** for a non-negative balance whenever the power value is ≥ 1.0 (`U`; checked on every real call). -/
+theorem accrued_nonneg (n : Int) (lsr : Dec) (secs : Int) (p : Int) (x : Dec) (hn : 0 ≤ n) (hp : (Accrual.U : Int) ≤ p)
+    (h : Accrual.calcRewards n lsr secs (some p) = .ok x) : 0 ≤ x := by
+  unfold Accrual.calcRewards at h
+  split at h; · simp at h
+  split at h; · simp at h
+  simp only at h
+  split at h; · simp at h
+  split at h
+  · simp at h; subst h
+    exact Accrual.interestOfPow_nonneg p _ hp (Accrual.aF_nonneg n hn)
+  · simp at h
+
+/-- **Zero saving rate ⇒ nothing accrues and nothing is paid** (the function returns before touching anything). -/
+theorem accrued_zero_rate (s : State) (ctx : Ctx) (app asset id : Nat) (pw : Option Int) (c : CL)
+    (hc : Store.get s.collk (app, asset) = some c) (h0 : c.lsr = 0) :
+    accrue s ctx app asset id pw = (.none, none) := by
+  unfold accrue
+  split
+  · rfl
+  · simp [hc, h0]
+
+/-- **Zero elapsed time ⇒ nothing accrues**: `math.Pow(x, 0) = 1.0` (IEEE-754 / Go specification; checked on every real call with
+zero elapsed time) gives an accrued amount of exactly 0 … -/
+theorem accrued_zero_time (n : Int) (lsr : Dec) (hn : Accrual.isInt64 n = true) :
+    Accrual.calcRewards n lsr 0 (some (Accrual.U : Int)) = .ok 0 := by
+  unfold Accrual.calcRewards
+  have h1 : Accrual.productOfPow (Accrual.U : Int) (Accrual.aF n) = 0 := by
+    unfold Accrual.productOfPow; rw [Accrual.fsub_self]; exact Accrual.fmul_zero_left _
+  simp [hn, h1, Accrual.finite, Accrual.fmt18_zero, Accrual.maxU, Dec.fits]
+
+/-- … so with a tracker below one whole unit nothing is paid and the tracker is unchanged. -/
+theorem nothing_paid_for_zero_accrual (tr : Dec) (h : tr < Dec.one) :
+    ¬ (Dec.one ≤ tr + 0) ∧ tr + 0 = tr := by
+  simp only [Dec, Dec.one, Dec.P] at *; omega
+
+/-- **Monotone in the balance**: for the same rate and elapsed time (hence the same power value ≥ 1.0) a larger balance accrues at
+least as much. (Monotonicity in time or rate is NOT true of the code: `math.Pow` is not monotone — C18, D-C18.) -/
+theorem accrued_mono_balance (n n' : Int) (lsr : Dec) (secs : Int) (p : Int) (x x' : Dec) (hn : 0 ≤ n) (hnn : n ≤ n')
+    (hp : (Accrual.U : Int) ≤ p) (h : Accrual.calcRewards n lsr secs (some p) = .ok x)
+    (h' : Accrual.calcRewards n' lsr secs (some p) = .ok x') : x ≤ x' := by
+  have key : ∀ (m : Int) (y : Dec), Accrual.calcRewards m lsr secs (some p) = .ok y → y = Accrual.interestOfPow p (Accrual.aF m) := by
+    intro m y hm
+    unfold Accrual.calcRewards at hm
+    split at hm; · simp at hm
+    split at hm; · simp at hm
+    simp only at hm
+    split at hm; · simp at hm
+    split at hm
+    · simp at hm; exact hm.symm
+    · simp at hm
+  rw [key n x h, key n' x' h']
+  exact Accrual.interestOfPow_mono p p _ _ hp (Int.le_refl p) (Accrual.aF_nonneg n hn) (Accrual.aF_mono n n' hn hnn)
+
+/-- **Never more than the collector's recorded net fees** for that (app, asset): a message that pays a reward `ρ` succeeds only
+if `ρ ≤ netFees(app, asset)`, and the record drops by exactly `ρ` in the reward step. Contrapositive: when the collector cannot
+pay, the whole deposit / withdraw / close / reward-calc message is rejected and nothing changes. -/
+theorem reward_le_netfees (s s' : State) (ctx : Ctx) (u app asset id : Nat) (amt : Int) (pw : Option Int) (ρ : Int)
+    (hpay : (accrue s ctx app asset id pw).1 = .pay ρ)
+    (h : stepT s ctx (.deposit u app asset id amt pw) = some s' ∨ stepT s ctx (.withdraw u app asset id amt pw) = some s' ∨
+         stepT s ctx (.close u app asset id pw) = some s') :
+    ρ ≤ fee s (app, asset) := by
+  have hρ : 0 ≤ ρ := by have := accrue_pay_pos s ctx app asset id pw ρ hpay; omega
+  rcases h with h | h | h <;> simp only [stepT, Option.map_eq_some_iff] at h <;> obtain ⟨s1, hs, _⟩ := h <;> rw [hpay] at hs
+  · obtain ⟨l, s2, hl, ha, hr⟩ := (msg_reward_some hs).1 _ _ _ _ _ _ rfl
+    exact (reward_pay_le_fee hρ hl ha hr).1
+  · obtain ⟨l, s2, hl, ha, hr⟩ := (msg_reward_some hs).2.1 _ _ _ _ _ _ rfl
+    exact (reward_pay_le_fee hρ hl ha hr).1
+  · obtain ⟨l, s2, hl, ha, hr⟩ := (msg_reward_some hs).2.2.1 _ _ _ _ _ rfl
+    exact (reward_pay_le_fee hρ hl ha hr).1
+
+theorem reward_unpayable_rejects (s : State) (ctx : Ctx) (u app asset id : Nat) (amt : Int) (pw : Option Int) (ρ : Int)
+    (hpay : (accrue s ctx app asset id pw).1 = .pay ρ) (hshort : fee s (app, asset) < ρ) :
+    stepT s ctx (.deposit u app asset id amt pw) = none ∧ stepT s ctx (.withdraw u app asset id amt pw) = none ∧
+    stepT s ctx (.close u app asset id pw) = none := by
+  refine ⟨?_, ?_, ?_⟩
+  · cases h : stepT s ctx (.deposit u app asset id amt pw) with
+    | none => rfl
+    | some s' => have := reward_le_netfees s s' ctx u app asset id amt pw ρ hpay (Or.inl h); omega
+  · cases h : stepT s ctx (.withdraw u app asset id amt pw) with
+    | none => rfl
+    | some s' => have := reward_le_netfees s s' ctx u app asset id amt pw ρ hpay (Or.inr (Or.inl h)); omega
+  · cases h : stepT s ctx (.close u app asset id pw) with
+    | none => rfl
+    | some s' => have := reward_le_netfees s s' ctx u app asset id amt pw ρ hpay (Or.inr (Or.inr h)); omega
+
+/-- the reward-calculation message: same bound, and the record drops by exactly the paid reward -/
+theorem reward_calc_le_netfees (s s' : State) (ctx : Ctx) (app id : Nat) (pw : Option Int) (l : Locker) (ρ : Int)
+    (hl : Store.get s.lockers id = some l) (hpay : (accrue s ctx app l.asset id pw).1 = .pay ρ)
+    (h : stepT s ctx (.rewardCalc app id pw) = some s') :
+    ρ ≤ fee s (app, l.asset) ∧ fee s' (app, l.asset) = fee s (app, l.asset) - ρ := by
+  have hρ : 0 ≤ ρ := by have := accrue_pay_pos s ctx app l.asset id pw ρ hpay; omega
+  simp only [stepT, hl, Option.map_eq_some_iff] at h
+  obtain ⟨s1, hs, hs'⟩ := h
+  rw [hpay] at hs
+  obtain ⟨l0, hl0, hr⟩ := (msg_reward_some hs).2.2.2 _ _ _ rfl
+  rw [hl] at hl0; cases hl0
+  obtain ⟨a, b⟩ := reward_pay_le_fee hρ hl rfl hr
+  refine ⟨a, ?_⟩
+  rw [← b, ← hs']
+  split <;> rfl
+
+/-! ### histories with the reward computed inside: no assumption about the reward is left -/
+
+def ExtOkT (h : List (Ctx × OpT)) : Prop := ∀ p ∈ h, p.2.extOk
+def dmgTotalT : List (Ctx × OpT) → Nat → Int
+  | [] => fun _ => 0
+  | p :: ps => fun a => p.2.dmg a + dmgTotalT ps a
+def NoV2CloseT (h : List (Ctx × OpT)) : Prop := ∀ p ∈ h, ∀ a, p.2.dmg a = 0
+
+theorem inv_runSkipT (h : List (Ctx × OpT)) : ∀ (s : State) (D : Nat → Int), LInv s → CInvD D s → ExtOkT h →
+    LInv (runSkipT s h) ∧ CInvD (fun a => D a + dmgTotalT h a) (runSkipT s h) := by
+  induction h with
+  | nil => intro s D hL hC _; exact ⟨hL, hC.mono (fun a => by simp [dmgTotalT])⟩
+  | cons p ps ih =>
+    intro s D hL hC hext
+    obtain ⟨ctx, op⟩ := p
+    simp only [runSkipT]
+    have hop : op.extOk := hext (ctx, op) (by simp)
+    have hrest : ExtOkT ps := fun o ho => hext o (by simp [ho])
+    cases hs : stepT s ctx op with
+    | none =>
+      simp only [Option.getD]
+      obtain ⟨a, b⟩ := ih s D hL hC hrest
+      exact ⟨a, b.mono (fun x => by simp only [dmgTotalT]; have := OpT.dmg_nonneg op x; omega)⟩
+    | some s1 =>
+      simp only [Option.getD]
+      obtain ⟨hL1, hC1⟩ := stepT_inv hL hC hop hs
+      obtain ⟨a, b⟩ := ih s1 _ hL1 hC1 hrest
+      exact ⟨a, b.mono (fun x => by simp only [dmgTotalT]; omega)⟩
+
+/-- **Paying the computed reward keeps the books**: after every timed history (locker messages with the reward computed from
+balance, rate, time stamps, tracker and the `math.Pow` value; saving-rate updates iterating over all lockers; every other
+operation) `deposited = Σ net balances`, locker custody ≥ Σ deposited, net fees ≥ 0, and collector custody ≥ Σ net fees up to the
+bounded shortfall of the second-generation closes. -/
+theorem reachableT_inv (assets apps : List Nat) (collk : Store (Nat × Nat) CL) (h : List (Ctx × OpT)) (hext : ExtOkT h) :
+    LInv (runSkipT (init assets apps collk) h) ∧ CInvD (dmgTotalT h) (runSkipT (init assets apps collk) h) := by
+  obtain ⟨hL, hC⟩ := inv_init assets apps collk
+  obtain ⟨a, b⟩ := inv_runSkipT h _ _ hL hC hext
+  exact ⟨a, b.mono (fun x => by omega)⟩
+
+theorem deposited_eq_sum_netbalance_timed (assets apps : List Nat) (collk : Store (Nat × Nat) CL) (h : List (Ctx × OpT))
+    (hext : ExtOkT h) (app asset : Nat) :
+    dep (runSkipT (init assets apps collk) h) (app, asset) = lockSum (app, asset) (runSkipT (init assets apps collk) h).lockers :=
+  (reachableT_inv assets apps collk h hext).1.depEq (app, asset)
+
+theorem locker_custody_ge_deposited_timed (assets apps : List Nat) (collk : Store (Nat × Nat) CL) (h : List (Ctx × OpT))
+    (hext : ExtOkT h) (asset : Nat) :
+    depAsset asset (runSkipT (init assets apps collk) h).lookup ≤ bal (runSkipT (init assets apps collk) h) .locker asset :=
+  (reachableT_inv assets apps collk h hext).1.custody asset
+
+theorem netfees_nonneg_timed (assets apps : List Nat) (collk : Store (Nat × Nat) CL) (h : List (Ctx × OpT)) (hext : ExtOkT h) :
+    ∀ p ∈ (runSkipT (init assets apps collk) h).fees, 0 ≤ p.2 :=
+  (reachableT_inv assets apps collk h hext).2.nonneg
+
+theorem collector_custody_timed_partial (assets apps : List Nat) (collk : Store (Nat × Nat) CL) (h : List (Ctx × OpT))
+    (hext : ExtOkT h) (hv2 : NoV2CloseT h) (asset : Nat) :
+    feeAsset asset (runSkipT (init assets apps collk) h).fees ≤ bal (runSkipT (init assets apps collk) h) .collector asset := by
+  have := (reachableT_inv assets apps collk h hext).2.custody asset
+  have hz : dmgTotalT h asset = 0 := by
+    induction h with
+    | nil => rfl
+    | cons p ps ih =>
+      simp only [dmgTotalT]
+      rw [hv2 p (by simp) asset, ih (fun o ho => hext o (by simp [ho])) (fun o ho => hv2 o (by simp [ho]))]
+      · rfl
+      · exact (reachableT_inv assets apps collk ps (fun o ho => hext o (by simp [ho]))).2.custody asset
+  omega
+
+/-- a timed history: fees 50 in, a locker of 4·10⁸, one year at 10 % with the power value 1.1 (bits 0x3FF199999999999A) -/
+def cl10 : CL := { lsr := 100000000000000000, bt := 1000 }
+def pow11 : Option Int := Accrual.ofBits 0x3FF199999999999A
+def demoT : List (Ctx × OpT) :=
+  [(⟨1000, 1⟩, .plain (.fund 7 2 1000000000)), (⟨1000, 1⟩, .plain (.whitelist 1 2)), (⟨1000, 1⟩, .wlReward 1 2),
+   (⟨1000, 1⟩, .create 7 1 2 400000000), (⟨2000, 2⟩, .plain (.feeVault 1 2 50000000)),
+   (⟨1000 + 31557600, 9⟩, .rewardCalc 1 1 pow11)]
+
+/-- one year at 10 % on 400 000 000 pays 40 000 000 (the float product is 40000000.00000003…, whole units are paid) -/
+example : (runSkipT (init [2] [1] [((1, 2), cl10)]) demoT).lockers = [(1, { owner := 7, app := 1, asset := 2, net := 440000000, ret := 40000000 })] := by
+  decide +kernel
+example : fee (runSkipT (init [2] [1] [((1, 2), cl10)]) demoT) (1, 2) = 10000000 := by decide +kernel
+/-- a second year would accrue 44 000 000 > 10 000 000 recorded: the withdrawal is rejected as a whole -/
+example : stepT (runSkipT (init [2] [1] [((1, 2), cl10)]) demoT) ⟨1000 + 2 * 31557600, 20⟩ (.withdraw 7 1 2 1 5 pow11) = none := by
+  decide +kernel
 
 /-! ## non-vacuity: concrete histories on which the hypotheses hold and the interesting branches fire -/
 
@@ -246,22 +444,22 @@ example : ExtOk demo ∧ NoV2Close demo := by
     rcases hop with e | e | e | e | e | e | e | e | e <;> subst e <;> simp [Op.extOk, Op.isV2Close, Rw.ok]
 
 /-- every op of `demo` is accepted, the locker ends with 400 − 100 + 3 + 10 + 5 + 2 = 320, the net fees with 50 − 3 − 5 − 2 − 4 = 36 -/
-example : (run (init [2] [1] [(1, 2)]) demo).isSome = true := by decide
-example : dep (runSkip (init [2] [1] [(1, 2)]) demo) (1, 2) = 320 := by decide
-example : fee (runSkip (init [2] [1] [(1, 2)]) demo) (1, 2) = 36 := by decide
-example : bal (runSkip (init [2] [1] [(1, 2)]) demo) .collector 2 = 36 := by decide
-example : bal (runSkip (init [2] [1] [(1, 2)]) demo) .locker 2 = 320 := by decide
-example : bal (runSkip (init [2] [1] [(1, 2)]) demo) (.user 7) 2 = 690 := by decide
+example : (run (init [2] [1] [((1, 2), {})]) demo).isSome = true := by decide
+example : dep (runSkip (init [2] [1] [((1, 2), {})]) demo) (1, 2) = 320 := by decide
+example : fee (runSkip (init [2] [1] [((1, 2), {})]) demo) (1, 2) = 36 := by decide
+example : bal (runSkip (init [2] [1] [((1, 2), {})]) demo) .collector 2 = 36 := by decide
+example : bal (runSkip (init [2] [1] [((1, 2), {})]) demo) .locker 2 = 320 := by decide
+example : bal (runSkip (init [2] [1] [((1, 2), {})]) demo) (.user 7) 2 = 690 := by decide
 /-- the close pays the full 320 -/
-example : bal (runSkip (init [2] [1] [(1, 2)]) (demo ++ [.close 7 1 2 1 .none])) (.user 7) 2 = 1010 := by decide
+example : bal (runSkip (init [2] [1] [((1, 2), {})]) (demo ++ [.close 7 1 2 1 .none])) (.user 7) 2 = 1010 := by decide
 /-- a withdrawal above the balance, a foreign owner and a zero amount are rejected -/
-example : step (runSkip (init [2] [1] [(1, 2)]) demo) (.withdraw 7 1 2 1 321 .none) = none := by decide
-example : step (runSkip (init [2] [1] [(1, 2)]) demo) (.withdraw 8 1 2 1 1 .none) = none := by decide
-example : step (runSkip (init [2] [1] [(1, 2)]) demo) (.deposit 7 1 2 1 0 .none) = none := by decide
+example : step (runSkip (init [2] [1] [((1, 2), {})]) demo) (.withdraw 7 1 2 1 321 .none) = none := by decide
+example : step (runSkip (init [2] [1] [((1, 2), {})]) demo) (.withdraw 8 1 2 1 1 .none) = none := by decide
+example : step (runSkip (init [2] [1] [((1, 2), {})]) demo) (.deposit 7 1 2 1 0 .none) = none := by decide
 /-- a reward larger than the recorded net fees makes the whole message fail -/
-example : step (runSkip (init [2] [1] [(1, 2)]) demo) (.withdraw 7 1 2 1 1 (.pay 37)) = none := by decide
+example : step (runSkip (init [2] [1] [((1, 2), {})]) demo) (.withdraw 7 1 2 1 1 (.pay 37)) = none := by decide
 /-- `GetAmountFromCollector` refuses to empty the record (strict comparison) -/
-example : step (runSkip (init [2] [1] [(1, 2)]) demo) (.getAmount 1 2 36) = none := by decide
-example : (step (runSkip (init [2] [1] [(1, 2)]) demo) (.getAmount 1 2 35)).isSome = true := by decide
+example : step (runSkip (init [2] [1] [((1, 2), {})]) demo) (.getAmount 1 2 36) = none := by decide
+example : (step (runSkip (init [2] [1] [((1, 2), {})]) demo) (.getAmount 1 2 35)).isSome = true := by decide
 
 end Comdex.C13
